@@ -16,8 +16,9 @@
       scripts are consumed one per Pull; when they run out while the loop still retries, the client goes away)
       -> "res=<ok|err:cls|clientGone> success=<true|false> attempts=<k> link=<manifest id|none>"
     canretry <ok|cls>  -> 1 | 0   (the model's `canRetry`)
-    legacy <nlayers> {<head 0|1|2> <post 0|1> <npatch> {0|1}* <ncommit> {0|1}*}* <manifestOk 0|1>
-      -> "<events> res=<ok|err>"
+    legacy <strict 0|1> <nlayers> {<head resps> <post resps> <npatchTries> {<resps>}* <ncommitTries> {<resps>}*}* <manifest resps>
+      (<resps> := <n> {<status> <loc 0|1>}*: the answers to the physical requests of one exchange)
+      -> "<events L<i>[h|p|a|c]:<METHOD>:<status> … M:<METHOD>:<status>> res=<ok|err>"
 -/
 import OllamaVerif.Model.Registry
 import Oracle.Util
@@ -156,22 +157,23 @@ def showPushEv : PushEv → String
   | .req i up m st => s!"L{i}{if up then "u" else "p"}:{showMethod m}:{st}"
   | .man m st => s!"M:{showMethod m}:{st}"
 
+def kindLetter (k : Nat) : String :=
+  match k with
+  | 0 => "h" | 1 => "p" | 2 => "a" | _ => "c"
+
 def showLegEv : LegEv → String
-  | .head i r => s!"H{i}:{r}"
-  | .post i ok => s!"P{i}{pm ok}"
-  | .patch i ok => s!"A{i}{pm ok}"
-  | .commit i ok => s!"C{i}{pm ok}"
-  | .manifest => "M"
+  | .req i k m st => s!"L{i}{kindLetter k}:{showMethod m}:{st}"
+  | .man m st => s!"M:{showMethod m}:{st}"
 
 def pBool : TP Bool := do
   let n ← nat
   pure (n != 0)
 
 def pLegacy : TP LegacyLayer := do
-  let h ← nat
-  let p ← pBool
-  let pa ← listOf pBool
-  let co ← listOf pBool
+  let h ← listOf pResp
+  let p ← listOf pResp
+  let pa ← listOf (listOf pResp)
+  let co ← listOf (listOf pResp)
   pure ⟨h, p, pa, co⟩
 
 def handle (toks : List String) : Option String :=
@@ -222,10 +224,11 @@ def handle (toks : List String) : Option String :=
       pure (if canRetry (.err e) then "1" else "0")) rest
   | "legacy" :: rest =>
     runTP (do
+      let strict ← pBool
       let ls ← listOf pLegacy
-      let mok ← pBool
-      let r := legacyPush 0 ls
-      pure s!"{joinWith " " (r.1.map showLegEv)} res={if r.2 && mok then "ok" else "err"}") rest
+      let man ← listOf pResp
+      let r := legacyPush strict ls man
+      pure s!"{joinWith " " (r.1.map showLegEv)} res={if r.2 then "ok" else "err"}") rest
   | _ => none
 
 end Oracle.C09
